@@ -636,7 +636,7 @@ package geojson
 //@   ensures result == circleObjS(g) && isPolygonK(result) && ObjInv(result)
 
 // distances: thin model (numeric), a Circle measures from its polygon approximation
-//@ spec func distLeafS(a Object, b Object) real
+// distLeafS(a, b) is defined by cases over the kinds in zz_contracts_safety_verif.go (each leaf Distance is `pureas`)
 //@ spec func oDistS(a Object, b Object) real { ite(isCircleK(a), distLeafS(circleObjS(a), b), distLeafS(a, b)) }
 //@ func Object.Distance
 //@   props C13
